@@ -355,8 +355,22 @@ impl Searcher {
             return;
         }
         let position_hash = self.zobrist.hash(board);
+        #[cfg(flounder_verif)]
+        let verif_before = self
+            .transposition_table
+            .retrieve(position_hash)
+            .map(crate::verif_seam::entry_view);
         self.transposition_table
             .store(position_hash, result.score, result.best_move, depth, bound);
+        #[cfg(flounder_verif)]
+        crate::verif_seam::observe(crate::verif_seam::Event::TtStoreEffect {
+            key: position_hash,
+            before: verif_before,
+            after: self
+                .transposition_table
+                .retrieve(position_hash)
+                .map(crate::verif_seam::entry_view),
+        });
     }
 
     /// Caches the result from iterative deepening for move ordering.
